@@ -85,6 +85,37 @@ func (this *Dataset) close() {
 	}
 }
 
+// Brings the replica assignment of every partition in line with a catalogue snapshot
+func (this *Dataset) syncPartitionNodes(meta *pb.Dataset) {
+	this.partitionsMu.Lock()
+	defer this.partitionsMu.Unlock()
+
+	for _, partitionMeta := range meta.GetPartitions() {
+		partitionId, err := uuid.FromBytes(partitionMeta.GetId())
+		if err != nil {
+			continue
+		}
+		partition, exists := this.partitionsMap[partitionId]
+		if !exists {
+			continue
+		}
+		wanted := make(map[uint64]struct{})
+		for _, nodeId := range partitionMeta.GetNodeIds() {
+			wanted[nodeId] = struct{}{}
+		}
+		for _, nodeId := range append([]uint64{}, partition.nodeIds()...) {
+			if _, keep := wanted[nodeId]; !keep {
+				partition.removeNode(nodeId)
+			}
+		}
+		for _, nodeId := range partitionMeta.GetNodeIds() {
+			if !partition.isOnNode(nodeId) {
+				partition.addNode(nodeId)
+			}
+		}
+	}
+}
+
 func (this *Dataset) Meta() *pb.Dataset {
 	return this.meta
 }
